@@ -730,3 +730,37 @@ def r3_13(rep):
         rep.check(monotone or per_union, "unit-size-covers-every-field", "the unit size only grows (`max(size, end of field)`)" if monotone or per_union else
                   "`unit_size = %s`: the size is the end of the LAST field, which is not the largest when fields overlap (unions)" % b.canon(r, 3)[:60],
                   b.loc(a))
+
+
+@RULES.rule("R3.14", "the gap in front of a bit-field unit is filled in packed records too (shared with C02 R2.10)", floor=1)
+def r3_14(rep):
+    """A zero-width bit-field pushes the following run to the next boundary of its type even under `packed`; the unit is a byte array
+    that no `repr` moves.  Skipping the padding for packed records puts the unit (and every accessor) at the wrong bytes while the size
+    assertion still passes, because `pad_struct` fills the tail (seeded independently for C02 and C03)."""
+    import c02
+    c02.r2_10(rep)
+
+
+@RULES.rule("R3.15", "only the record's own `packed` attribute makes the record packed", floor=1)
+def r3_15(rep):
+    """`CompInfo::packed_attr` switches the layout tracker to packed mode (no explicit padding for plain members) and puts
+    `repr(packed)` on the struct.  It is set when the record cursor has a `CXCursor_PackedAttr` child.  A `packed` attribute on ONE
+    member (`unsigned kind:4 __attribute__((packed))`) is a child of that member's cursor; taking it for the record's attribute drops
+    the padding in front of a later over-aligned member and moves every bit-field unit behind it (seeded change)."""
+    from hir import pat_variants as _pv
+    prog = rep.prog
+    b = rep.need(prog.fn("ir::comp::CompInfo::from_ty"), "CompInfo::from_ty")
+    asg = [n for n in b.nodes if n["k"] == "Assign" and strip(n["l"]).get("k") == "Field" and strip(n["l"]).get("f") == "packed_attr"]
+    rep.need(asg, "assignments to CompInfo::packed_attr in from_ty")
+    for k, n in enumerate(asg):
+        clos = [a for a in b.ancestors(n) if a["k"] == "Closure"]
+        arms = []
+        for pol, kind, g in b.guards(n):
+            if kind == "arm":
+                arms.append({v.split("::")[-1] for v in _pv(g[0]["arms"][g[1]]["pat"])})
+        in_member_arm = any(any(v in ("CXCursor_FieldDecl", "CXCursor_VarDecl", "CXCursor_CXXMethod") for v in a) for a in arms)
+        own = len(clos) == 1 and not in_member_arm and any(a == {"CXCursor_PackedAttr"} for a in arms)
+        rep.check(own, "packed-attr-from-record%s" % ("" if k == 0 else "#%d" % k),
+                  "set for a `CXCursor_PackedAttr` child of the record cursor" if own else
+                  "`packed_attr` is set inside %s: an attribute of a member is taken for an attribute of the record"
+                  % ("the visitor of a member's children" if len(clos) > 1 or in_member_arm else "an arm that is not `CXCursor_PackedAttr`"), b.loc(n))
